@@ -236,6 +236,13 @@ func runC14(c *core.Ctx) core.Meta {
 		}
 		acc, decided := acceptedStates(pk, fd, states)
 		if !decided {
+			// not a loop over the group with the tests written out: the predicate is explored
+			// on its SSA form, helpers and function-valued conditions included
+			if sf := c.SSAFunc(cuPkg, name); sf != nil {
+				acc, decided = acceptedStatesSSA(sf, states)
+			}
+		}
+		if !decided {
 			st4.Ob(false)
 			c.Report(core.Finding{Rule: "R14.4", Kind: "undecided", Pkg: cuPkg, Func: name, Detail: "predicate-shape", Pos: c.Position(fd.Pos()), Msg: "the barrier predicate is no longer a per-wavefront test of wf.State against constants"})
 			continue
@@ -396,6 +403,7 @@ func runC14(c *core.Ctx) core.Meta {
 	// R14.8 a wavefront that ends leaves the pool alone
 	st8 := c.Rule("R14.8", "removing a finished wavefront from a wavefront pool (or any list of the compute unit) takes out exactly that wavefront: every append / in-place copy of the compute-unit package that joins two windows of one slice is append(s[:i], s[i+1:]...) or copy(s[i:], s[i+1:]) followed by a cut by one. A shifted window removes a live wavefront with the finished one: it is never scheduled again, its work-group never completes and the wavefronts of its group wait at the next barrier for ever", 1)
 	checkSliceRemovalIdiom(c, st8, "R14.8", pcu, "a live wavefront leaves the pool with the finished one and is never scheduled again")
+	checkNoCompactionWhileRanging(c, "R14.12", 6, pcu, pemu)
 
 	// R14.7 the release reaches every wavefront of the group, not only those that found room in the barrier buffer
 	st7 := c.Rule("R14.7", "passBarrier makes every unfinished wavefront of the work-group ready: each call that sets a wavefront ready (UpdatePCAndSetReady), helpers of passBarrier expanded, takes a wavefront drawn from the work-group's own wavefront list (wg.Wfs). A wavefront that reaches s_barrier while the barrier buffer is full waits in state WfAtBarrier without an entry in the buffer; a release that walks the buffer leaves it at the barrier for ever, and later barriers of the group look complete without it", 1)
@@ -803,6 +811,11 @@ func runC14(c *core.Ctx) core.Meta {
 	}
 	if fd := findFuncDecl(pk, "SchedulerImpl.areAllOtherWfsInWGCompleted"); fd != nil {
 		acc, decided := acceptedStates(pk, fd, states)
+		if !decided {
+			if sf := c.SSAFunc(cuPkg, "SchedulerImpl.areAllOtherWfsInWGCompleted"); sf != nil {
+				acc, decided = acceptedStatesSSA(sf, states)
+			}
+		}
 		st5.Instances++
 		ok := decided
 		for s, a := range acc {
